@@ -14,9 +14,108 @@ pub struct C10Case {
     /// drive the built converters on the file instead of the library readers
     #[serde(default)]
     pub tool: bool,
+    /// large-section / many-section files (the spec is then only a template): 1 = one variable-step
+    /// section of 60 000 items after a small one, 2 = fixed-step 60 000, 3 = bedGraph 60 000,
+    /// 4 = 5 200 fixed-step sections read through ONE caching reader (more blocks than its cache holds)
+    #[serde(default)]
+    pub big: u32,
 }
 
 pub struct C10;
+
+/// Files whose sections hold more items than 15- or 16-bit arithmetic survives, and files with
+/// more blocks than the caching reader keeps: a few queries in the lower and upper part of the big
+/// section / early and late blocks, plain and cached, against the encoded items.
+fn c10_big(kind: u32, le: bool, tags: &[String], out: &mut Outcome) {
+    let n = 60_000u32;
+    let secs: Vec<WigSec> = match kind {
+        1 => vec![WigSec::T1(vec![(0, 1, 9.0), (2, 3, 8.0)]), WigSec::T2(1, (0..n).map(|i| (10 + 2 * i, (i % 251) as f32 * 0.5 - 3.0)).collect())],
+        2 => vec![WigSec::T1(vec![(0, 1, 9.0)]), WigSec::T3(10, 2, 1, (0..n).map(|i| (i % 127) as f32 * 0.25).collect())],
+        3 => vec![WigSec::T1((0..n).map(|i| (2 * i, 2 * i + 1, (i % 509) as f32 * 0.125)).collect())],
+        _ => (0..5200u32).map(|k| WigSec::T3(100 * k, 10, 5, (0..10).map(|j| (k % 97) as f32 + j as f32 * 0.5).collect())).collect(),
+    };
+    let size = 600_000u32;
+    let spec = EncSpec {
+        bed: false,
+        le,
+        compress: kind % 2 == 0,
+        version: 4,
+        chroms: vec![EncChrom { name: "big".into(), size, wig: secs, bed: vec![] }],
+        chrom_block: 64,
+        chrom_level_order: false,
+        chrom_ids_in_given_order: false,
+        fanout: 64,
+        placement: Placement::LevelOrder,
+        zooms: vec![],
+        zoom_ips: 4,
+        zoom_blocks_span_chroms: false,
+        trailing_magic: true,
+        index_last: false,
+        no_summary: false,
+        autosql: None,
+    };
+    let enc = encode(&spec);
+    let items = &enc.wig[0];
+    let want_for = |s: u32, e: u32| -> Vec<(u32, u32, u32)> { items.iter().filter(|i| i.1 > s && i.0 < e).map(|i| (i.0.max(s), i.1.min(e), i.2.to_bits())).collect() };
+    let last = items.last().map(|i| i.1).unwrap_or(0);
+    let mut queries: Vec<(u32, u32)> = vec![(0, size), (0, 40), (last - 30, last), (last / 2 - 10, last / 2 + 10), (3 * (last / 4), 3 * (last / 4) + 25), (last - 1, last), (last / 3, last / 3 + 7)];
+    if kind == 4 {
+        // after the whole file has passed through the cache: the earliest blocks again
+        queries.extend([(0, 45), (100, 150), (250, 460), (519_900, 520_000), (5, 6)]);
+    }
+    let r = guarded(|| {
+        let mut plain = BigWigRead::open(Cursor::new(enc.bytes.clone())).map_err(|e| format!("{}", e))?;
+        let mut cached = BigWigRead::open(Cursor::new(enc.bytes.clone())).map_err(|e| format!("{}", e))?.cached();
+        for round in 0..2 {
+            for &(s, e) in &queries {
+                for which in ["plain", "cached"] {
+                    let got: Result<Vec<(u32, u32, u32)>, String> = (|| {
+                        let mut v = vec![];
+                        let it = if which == "plain" { plain.get_interval("big", s, e).map_err(|e| format!("{}", e))?.collect::<Vec<_>>() } else { cached.get_interval("big", s, e).map_err(|e| format!("{}", e))?.collect::<Vec<_>>() };
+                        for x in it {
+                            let x = x.map_err(|e| format!("{}", e))?;
+                            v.push((x.start, x.end, x.value.to_bits()));
+                        }
+                        Ok(v)
+                    })();
+                    out.count("big_file_queries", 1);
+                    match got {
+                        Err(err) => out.fail("query_error", tags, format!("{} reader, round {}, big [{},{}): {}", which, round, s, e, err)),
+                        Ok(g) => {
+                            let want = want_for(s, e);
+                            if g != want {
+                                out.fail("range_query_mismatch", tags, format!("{} reader, round {}, big [{},{}): {} values (first {:?}), encoded {} (first {:?})", which, round, s, e, g.len(), g.first(), want.len(), want.first()));
+                            }
+                        }
+                    }
+                }
+                if e - s <= 1000 {
+                    match cached.values("big", s, e) {
+                        Err(err) => out.fail("query_error", tags, format!("values big [{},{}): {}", s, e, err)),
+                        Ok(v) => {
+                            let mut want = vec![f32::NAN; (e - s) as usize];
+                            for i in items.iter().filter(|i| i.1 > s && i.0 < e) {
+                                for b in i.0.max(s)..i.1.min(e) {
+                                    want[(b - s) as usize] = i.2;
+                                }
+                            }
+                            if v.len() != want.len() || v.iter().zip(want.iter()).any(|(a, b)| a.to_bits() != b.to_bits() && !(a.is_nan() && b.is_nan())) {
+                                out.fail("values_mismatch", tags, format!("cached reader, round {}, values big [{},{}) differ from the encoded items", round, s, e));
+                            }
+                        }
+                    }
+                }
+            }
+        }
+        Ok::<(), String>(())
+    });
+    match r {
+        Ok(Ok(())) => {}
+        Ok(Err(e)) => out.fail("well_formed_file_refused", tags, e),
+        Err(p) => out.fail("read_panicked", tags, p),
+    }
+    out.count("big_section_files", 1);
+}
 
 pub const XL: u32 = 16;
 
@@ -412,11 +511,26 @@ impl Check for C10 {
     }
     fn cases(&self, tier: Tier) -> Box<dyn Iterator<Item = C10Case> + '_> {
         let step = if tier == Tier::Quick { 9 } else { 3 };
-        let tools: Vec<C10Case> = specs(tier).into_iter().step_by(step).map(|spec| C10Case { spec, tool: true }).collect();
-        Box::new(specs(tier).into_iter().map(|spec| C10Case { spec, tool: false }).chain(tools.into_iter()))
+        let tools: Vec<C10Case> = specs(tier).into_iter().step_by(step).map(|spec| C10Case { spec, tool: true, big: 0 }).collect();
+        let template = specs(tier).into_iter().next().unwrap();
+        let bigs = [1u32, 2, 3, 4].into_iter().flat_map(move |big| {
+            let t = template.clone();
+            [true, false].into_iter().map(move |le| {
+                let mut spec = t.clone();
+                spec.le = le;
+                C10Case { spec, tool: false, big }
+            })
+        });
+        Box::new(specs(tier).into_iter().map(|spec| C10Case { spec, tool: false, big: 0 }).chain(tools.into_iter()).chain(bigs))
     }
     fn run(&self, case: &C10Case, out: &mut Outcome) {
         let spec = &case.spec;
+        if case.big > 0 {
+            out.nontrivial = true;
+            let tags = vec![if spec.le { "little_endian".to_string() } else { "big_endian".to_string() }, format!("big_{}", case.big)];
+            c10_big(case.big, spec.le, &tags, out);
+            return;
+        }
         let enc = encode(spec);
         out.nontrivial = true;
         out.outcome_hash = Some(fnv(&enc.bytes));
